@@ -11,6 +11,9 @@ CLAIMS = {
  "C02": dict(engine="SYMX", text="Bounded model checking of the interpreted source of the seven smoothing operators on a symbolic grid (symbolic spacing, centre frequency, bandwidth, spectrum): on every solver-enumerated path (which bins fall in the window, which guards fire) the output is proved equal to the weight-normalised average under the published kernel (0 for empty windows); constant reproduction, non-negative weights, row independence, convexity and linearity lemmas, Savitzky-Golay least-squares coefficients and cubic reproduction as separate queries.",
    note="Bounds: 5 bins (quick) / 5-8 (thorough), 2-3 rows, 1-2 symbolic centre frequencies; SG on a concrete grid with symbolic spectrum, m in {5,7} / {5..11}. sin/log10/10**x uninterpreted (with sound monotone-inverse instances), floats as reals (1e-6 guards and edges exact). Compiled==interpreted is compared on the solver-chosen path witnesses only (reported as such), not decided.",
    tech="symbolic execution of the interpreted kernels + z3 per-path equality with the published weight formula; nlsat lemmas; compiled kernels run on the path witnesses", ref="2/C02"),
+ "C03": dict(engine="SYMX+CrossHair", text="(a) CrossHair confirms over all paths, for 4 records with symbolic time-step codes, that the two 'keeping' policies of the real prepare_records_with_inconsistent_dt retain exactly the records with the smallest / a most frequent time step in original order (reachability twins refuted); (b-d) SYMX runs process() end to end for solver-forked time-step patterns of 2-4 records, three policies and the three copies of the row bookkeeping (frequency-domain, single azimuth, RotDpp) plus azimuthal: per path the number of curves, the frequencies, equality (as terms) of every row with the row of that record processed alone at the same FFT length, also for the rotated list, and non-negativity are proved; (e) the Nyquist guard raises exactly when a (symbolic) centre frequency exceeds 1/(2 dt_max).",
+   note="Bounds: 2-4 records, 2 (3) distinct time steps, 3 samples, n_fft 4 fixed via fft_settings, 2 centre frequencies. Same stubs as C01; 'finite' when the smoothed vertical spectrum is exactly zero is outside the claim (degenerate division paths are counted).",
+   tech="CrossHair (z3) contracts on the real policy function + symbolic execution of process() with z3 row-equality queries", ref="2/C03"),
  "C05": dict(engine="SYMX", text="Bounded model checking of every statistic accessor of HvsrTraditional from an arbitrary valid state (symbolic curves and peaks, solver-forked accept/reject/no-peak status per window, three distribution spellings): per state the returned term is proved equal (unsat of the negation) to the textbook estimator over the accepted rows; frame condition on the symbols of rejected windows; reciprocal/symmetry consequences; a transition instance covers constructor + range update.",
    note="Bounds: 2-3 (quick) / 2-4 (thorough) windows, 2/3 frequencies. Floats read as reals; sqrt/exp/log uninterpreted with log(exp u)=u (argument equality is decided); np.cov runs numpy's own code via aweights=ones. States are constructed directly (one step from any valid state), transitions into those states are covered by C06/C08/C13.",
    tech="symbolic execution of the real source from an arbitrary valid state + z3 (NRA/UF) equality queries against textbook estimators", ref="2/C05"),
